@@ -3,6 +3,7 @@
 -/
 import FjallModel.Lemmas.ConcLin
 import FjallModel.Lemmas.StallRank
+import FjallModel.Conc.L0Halt
 namespace Fjall.Conc
 open Fjall Fjall.Spec
 
@@ -240,3 +241,41 @@ theorem c14_get_then_scan_counterexample :
   decide
 
 end Fjall.Conc
+
+/-! ### the write halt on 30+ L0 runs (`check_write_halt`) -/
+
+namespace Fjall.L0Halt
+
+/-- **The L0 halt lets the writer go as soon as the run count is below the threshold**: after any
+    sequence of flushes, compactions and iterations of the halt loop, if L0 now has fewer runs than
+    the threshold, the writer's next iteration leaves the loop (or it had left already). -/
+theorem c14_l0_halt_releases (cfg : Cfg) (hp : cfg.pollCurrent = true) (s : State) (evs : List Ev)
+    (hl : (run cfg s evs).l0 < cfg.haltAt) : (step cfg (run cfg s evs) .writer).w = .done := by
+  generalize run cfg s evs = r at hl
+  cases hw : r.w with
+  | idle => simp [step, hw, Nat.not_le.mpr hl]
+  | halted seen => simp [step, hw, hp, Nat.not_le.mpr hl]
+  | done => simp [step, hw]
+
+/-- polling a version fetched once before the loop (seeded change C14-7): a writer that entered the
+    loop never leaves it – whatever flushes, compactions and iterations follow -/
+theorem c14_l0_halt_stale_version_never_releases (cfg : Cfg) (hp : cfg.pollCurrent = false) (s : State)
+    (seen : Nat) (hw : s.w = .halted seen) (hs : seen ≥ cfg.haltAt) (evs : List Ev) :
+    (run cfg s evs).w = .halted seen := by
+  induction evs generalizing s with
+  | nil => exact hw
+  | cons e es ih =>
+    apply ih
+    cases e with
+    | writer => simp [step, hw, hp, hs]
+    | flush => simpa [step] using hw
+    | compact to => simpa [step] using hw
+
+/-- non-vacuity, the probe's schedule: 30 runs, the writer halts; a compaction leaves one run; the
+    writer proceeds – and does not with the stale version -/
+example : (run {} { l0 := 30 } [.writer, .writer, .compact 1, .writer]).w = .done ∧
+    (run {} { l0 := 30 } [.writer, .writer]).w = .halted 30 ∧
+    (run { pollCurrent := false } { l0 := 30 } [.writer, .writer, .compact 1, .writer]).w = .halted 30 := by
+  decide
+
+end Fjall.L0Halt
